@@ -51,11 +51,24 @@ def force_devices(s: M.Schema, devs: List[str], pick: Any) -> None:
 
 
 @st.composite
-def program(draw, n_values: int, periods: bool = False):
+def program(draw, n_values: int, periods: bool = False, twin: bool = False):
     s = draw(CS.can_schema(c_cfg(periods)))
     uniquify_enumerators(s)
     devs = draw(st.lists(CS.can_device, min_size=1, max_size=3, unique=True))
     force_devices(s, devs, lambda d: draw(st.sampled_from(d)))
+    # a second binding of the same struct that asks for big-endian signals (outside the checked subset) declared
+    # BEFORE the plain one: the plain binding must not inherit anything from it
+    if twin and draw(st.integers(0, 2)) == 0:
+        plain = [im for im in s.impls if im.protocol == "can"]
+        im = draw(st.sampled_from(plain))
+        wide = [f for f in s.struct(im.type).fields if isinstance(f.type, (M.U, M.I)) and f.type.n in (16, 32)]
+        if wide:
+            f = draw(st.sampled_from(wide))
+            used_ids = {M.plain_value(i.get("id")) for i in plain}
+            new_id = draw(st.integers(0, 2047).filter(lambda x: x not in used_ids))
+            twin = M.Impl("can", im.type, im.type + "Be", [("id", new_id), ("device", CH.device_of(im))],
+                          [M.SignalBlock(f.name, [("endianness", "big"), ("endianess", "big")])])
+            s.decls.insert(s.decls.index(im), twin)
     vals: Dict[str, List[Dict[str, Any]]] = {}
     vcfg = S.ValCfg(finite_floats=True)
     for im in CH.can_messages(s):
@@ -112,6 +125,10 @@ def check_program(s: M.Schema, vals: Dict[str, List[Dict[str, Any]]], rec: Any =
         lines: List[str] = []
         plan: List[Tuple[str, int, Dict[str, Any]]] = []
         for k, im in enumerate(msgs):
+            if im.signals:
+                if rec is not None:
+                    rec.cls("twin_binding_with_signal_block")
+                continue  # byte-order options are outside the advertised subset: compiled, not compared
             leaves = reflayout.layout(s, im.type, True)
             for v in vals[im.eff_name]:
                 lines.append(f"E {k} " + " ".join(CH.raw_args(s, leaves, v)))
@@ -194,7 +211,7 @@ def run_shard(ctx: Ctx) -> None:
         if msg:
             raise Violation(msg, {"schema_text": text, "pickle": pickle_b64((s, vals))})
 
-    hyp_run(ctx, program(ctx.pick(24, 120)), body, ctx.n(640, 5000), shrink_cap=60)
+    hyp_run(ctx, program(ctx.pick(24, 120), twin=True), body, ctx.n(640, 5000), shrink_cap=60)
 
 
 def replay(c: Dict[str, Any]) -> Optional[str]:
